@@ -205,10 +205,10 @@ theorem parseSPGiSTPageSpecial_expected_fields_are_read :
 
 def expectBRINSpecial : Expect :=
   [fld "info.Flags".toList (opaqueLayout .brin) "vector[2] flags".toList,
-   fld "info.IsMeta".toList (opaqueLayout .brin) "vector[3] page type".toList]
+   fld "pageType".toList (opaqueLayout .brin) "vector[3] page type".toList]
 
 /-- **Every constant-bounded read of the current `parseBRINPageSpecial` is one whole element of `BrinSpecialSpace`'s
-vector: the flags from [2], the page type (compared with BRIN_PAGETYPE_META) from [3].** -/
+vector: the flags from [2], the page type (compared with BRIN_PAGETYPE_META / BRIN_PAGETYPE_REVMAP) from [3].** -/
 theorem parseBRINPageSpecial_reads_are_spec_fields :
     readsAreFields expectBRINSpecial Generated.SrcReads.parseBRINPageSpecial = true := by decide
 
